@@ -56,6 +56,12 @@ debug = false
                      f'serde_json::to_string(&M_{xn}_{yn}::Wb_Cd {{ foo_bar: 0, x_y: 0 }}).unwrap(), '
                      f'serde_json::to_string(&M_{xn}_{yn}::Xc {{ a_b: 0 }}).unwrap(), serde_json::to_string(&M_{xn}_{yn}::Yd_e).unwrap()];')
             L.append(f'  println!("{{}}", serde_json::json!({{"kind":"mixed","rule":"{xn}/{yn}","decl":M_{xn}_{yn}::decl(),"json":vs}}));')
+        # a struct variant that is individually `untagged` still gets the enum's rename_all_fields (and its own rename_all wins over it)
+        items.append(f'#[derive(TS, Serialize)] #[serde(rename_all_fields = "{xs}")] enum U_{xn} {{ Plain {{ foo_bar: u8 }}, '
+                     f'#[serde(untagged)] Raw {{ foo_bar: u8, multi_word_x: u8 }}, #[serde(untagged, rename_all = "SCREAMING-KEBAB-CASE")] Own {{ own_rule_y: u8 }} }}')
+        L.append(f'  let vs: Vec<String> = vec![serde_json::to_string(&U_{xn}::Raw {{ foo_bar: 0, multi_word_x: 0 }}).unwrap(), '
+                 f'serde_json::to_string(&U_{xn}::Own {{ own_rule_y: 0 }}).unwrap()];')
+        L.append(f'  println!("{{}}", serde_json::json!({{"kind":"untagvar","rule":"{xn}","decl":U_{xn}::decl(),"json":vs}}));')
         items.append(f'#[derive(TS, Serialize, Default)] #[serde(rename_all = "{xs}")] struct R_{xn} {{ foo_bar: u8, #[serde(rename = "kept_AsIs")] b_c: u8, #[serde(rename = "")] e_f: u8 }}')
         L.append(f'  println!("{{}}", serde_json::json!({{"kind":"renamed","rule":"{xn}","decl":R_{xn}::decl(),"json":serde_json::to_string(&R_{xn}::default()).unwrap()}}));')
     L.append("}")
@@ -107,6 +113,16 @@ def run(ctx, chars):
             continue
         o = json.loads(line)
         rn, kind = o["rule"], o["kind"]
+        if kind == "untagvar":
+            arms = o["decl"].split("=", 1)[1].strip().rstrip(";").split(" | ")
+            ts_shape = [[unq(p.split(":")[0]) for p in a.strip()[1:-1].split(",") if ":" in p] for a in arms[1:]]
+            sj = [[k for k, _ in json.loads(x, object_pairs_hook=lambda kv: kv)] for x in o["json"]]
+            total += sum(len(x) for x in sj)
+            if ts_shape != sj:
+                fails += 1
+                ctx.violation(f"names in the binding differ from the names serde puts on the wire (untagged struct variants under rename_all_fields; {rn})",
+                              {"kind": kind, "rules": rn, "decl": o["decl"]}, {"ts_names": ts_shape, "serde_names": sj})
+            continue
         if kind in ("mixed", "renamed"):
             if kind == "mixed":
                 arms = o["decl"].split("=", 1)[1].strip().rstrip(";").split(" | ")
